@@ -5,12 +5,6 @@ Per-interval facts of the simple engine's output.
 -/
 namespace Chewing.Conv
 
-theorem slice_one {c : Composition} {i : Nat} {sym : Sym} (h : c.symbols[i]? = some sym) : slice c i (i + 1) = [sym] := by
-  obtain ⟨hi, rfl⟩ := List.getElem?_eq_some_iff.mp h
-  unfold slice
-  rw [List.drop_eq_getElem_cons hi, show i + 1 - i = 1 by omega]
-  rfl
-
 /-- a valid selection covers syllables only, so none intersects a character position -/
 theorem no_sel_at_char {c : Composition} (hc : CompValid c) {i cp : Nat} (h : c.symbols[i]? = some (Sym.chr cp)) :
     c.selections.any (fun sel => sel.intersectRange i (i + 1)) = false := by
